@@ -278,11 +278,16 @@ func c11Gates(c *Ctx, report func(sig map[string]string, art map[string]any, nam
 		for k, v := range it.GenSrc {
 			first[k] = v
 		}
-		variants := []string{"rerun-with-previous-output", "rerun-GOMAXPROCS=1", "rerun-truncated-previous-output", "rerun-GOMAXPROCS=16"}
+		variants := []string{"rerun-with-previous-output", "rerun-GOMAXPROCS=1", "rerun-truncated-previous-output", "rerun-GOMAXPROCS=16", "rerun-longer-stale-output"}
 		for vi, variant := range variants {
 			if strings.Contains(variant, "truncated") {
 				for name, src := range first {
 					_ = os.WriteFile(filepath.Join(it.Dir, name), []byte(src[:len(src)/2]), 0o644)
+				}
+			}
+			if strings.Contains(variant, "longer") {
+				for name, src := range first {
+					_ = os.WriteFile(filepath.Join(it.Dir, name), []byte(src+"\nfunc verifStaleLeftover() {}\n// stale tail of an older, longer output\n"), 0o644)
 				}
 			}
 			env := []string{}
